@@ -577,6 +577,11 @@ pub open spec fn chunk_facts(sq: Seq<u8>, cs: int, e: int, full: Option<Seq<u8>>
                             assert(forall|j: int| 4 <= j < bit_count ==> POWER_2[j] < decomp_len);
                             assert forall|j: int| 4 <= j < bit_count implies #[trigger] p2i(j) < decomp_len by { assert(POWER_2[j] == p2(j as nat)); }
                             lemma_bit_count(decomp_len as int, bit_count as int);
+                            // the table search `(4..16).find(..)` found a hit (the `.unwrap()` above is discharged from decomp_len <= 32768 = POWER_2[15])
+                            // and the FIRST hit is [MS-OVBA]'s BitCount = max(4, ceil(log2(difference)))
+                            //# C18.copytoken_bitcount
+                            assert(4 <= bit_count < 16 && bit_count as nat == copy_bit_count(decomp_len as int)
+                                && p2(bit_count as nat) >= decomp_len && (bit_count > 4 ==> p2((bit_count - 1) as nat) < decomp_len));
                             if ok {
                                 assert(s@.subrange(i_tok as int, s@.len() as int)[0] == sq[i_tok as int] && s@.subrange(i_tok as int, s@.len() as int)[1] == sq[i_tok + 1]);
                                 assert(token as int == u16_at(sq, i_tok as int));
@@ -615,6 +620,144 @@ pub open spec fn chunk_facts(sq: Seq<u8>, cs: int, e: int, full: Option<Seq<u8>>
                         }
 //@@ before /Ok\(res\)/
     proof { if ok { lemma_chunks_end(sq, i as int, res@); } }
+//@@ end
+
+// =====================================================================================================================
+// src/vba.rs: record helpers of the decompressed `dir` stream ([MS-OVBA] 2.3.4.2), reader = `&mut &[u8]` (A-io)
+// =====================================================================================================================
+/// `crate::cfb::{CfbError, XlsEncoding}` as src/vba.rs names them
+pub mod cfb { pub use super::{CfbError, XlsEncoding}; }
+
+// TRUSTED: (A-io) `byteorder::ReadBytesExt::read_u16/read_u32::<LittleEndian>` on the reader `&[u8]` (std `impl Read for &[u8]`):
+// with >= N bytes left it returns their little-endian value and advances the slice by N; otherwise it returns Err(UnexpectedEof)
+// (the slice position after an Err is unspecified). It never panics.
+pub mod byteorder {
+    use vstd::prelude::*;
+    use super::{le16, le32};
+    pub struct LittleEndian;
+    pub trait ReadBytesExt {
+        spec fn rem(&self) -> Seq<u8>;
+        fn read_u16<T>(&mut self) -> (r: Result<u16, std::io::Error>)
+            ensures match r {
+                Ok(v) => old(self).rem().len() >= 2 && v as int == le16(old(self).rem()) && final(self).rem() == old(self).rem().skip(2),
+                Err(_) => old(self).rem().len() < 2,
+            };
+        fn read_u32<T>(&mut self) -> (r: Result<u32, std::io::Error>)
+            ensures match r {
+                Ok(v) => old(self).rem().len() >= 4 && v as int == le32(old(self).rem()) && final(self).rem() == old(self).rem().skip(4),
+                Err(_) => old(self).rem().len() < 4,
+            };
+    }
+    impl<'a> ReadBytesExt for &'a [u8] {
+        open spec fn rem(&self) -> Seq<u8> { (*self)@ }
+        #[verifier::external_body]
+        fn read_u16<T>(&mut self) -> (r: Result<u16, std::io::Error>) { unimplemented!() }
+        #[verifier::external_body]
+        fn read_u32<T>(&mut self) -> (r: Result<u32, std::io::Error>) { unimplemented!() }
+    }
+}
+use byteorder::{LittleEndian, ReadBytesExt};
+
+// TRUSTED: (A-enc) stand-in for cfb::XlsEncoding (wraps an encoding_rs `&'static Encoding`): `from_codepage` finds the encoding of a
+// code page or fails with CodePageNotFound; `decode_all` decodes a byte string with it (total, never panics). The decoded text is an
+// uninterpreted function of (code page, bytes).
+pub struct XlsEncoding { pub cp: u16 }
+pub uninterp spec fn codepage_known(cp: u16) -> bool;
+pub uninterp spec fn decoded(cp: u16, bytes: Seq<u8>) -> Seq<char>;
+impl XlsEncoding {
+    #[verifier::external_body]
+    pub fn from_codepage(codepage: u16) -> (r: Result<XlsEncoding, CfbError>)
+        ensures match r { Ok(e) => codepage_known(codepage) && e.cp == codepage, Err(_) => !codepage_known(codepage) },
+    { unimplemented!() }
+    #[verifier::external_body]
+    pub fn decode_all(&self, stream: &[u8]) -> (r: String)
+        ensures r@ == decoded(self.cp, stream@),
+    { unimplemented!() }
+}
+
+//@@ item src/vba.rs enum VbaError
+// expansion of `from_err!(crate::cfb::CfbError, VbaError, Cfb)` / `from_err!(std::io::Error, VbaError, Io)` (macro in src/utils.rs)
+impl vstd::std_specs::convert::FromSpecImpl<std::io::Error> for VbaError {
+    open spec fn obeys_from_spec() -> bool { true }
+    open spec fn from_spec(e: std::io::Error) -> Self { VbaError::Io(e) }
+}
+impl From<std::io::Error> for VbaError {
+    fn from(e: std::io::Error) -> (r: VbaError) { VbaError::Io(e) }
+}
+impl vstd::std_specs::convert::FromSpecImpl<CfbError> for VbaError {
+    open spec fn obeys_from_spec() -> bool { true }
+    open spec fn from_spec(e: CfbError) -> Self { VbaError::Cfb(e) }
+}
+impl From<CfbError> for VbaError {
+    fn from(e: CfbError) -> (r: VbaError) { VbaError::Cfb(e) }
+}
+// TRUSTED: `log_enabled!(Level::Warn)` is an opaque boolean (state of the global logger); only guards a `warn!` statement
+#[verifier::external_body]
+fn verif_log_enabled() -> bool { false }
+
+//@@ item src/vba.rs struct Module
+
+/// a variable-length record at the cursor: u32 LE size, then size * mult payload bytes
+pub open spec fn var_len(s: Seq<u8>, mult: int) -> int { le32(s) * mult }
+
+//@@ fn src/vba.rs read_variable_record props=C06 ret=res
+//@@ sig
+    // every call site in src/vba.rs passes mult == 1 (with a larger factor `u32 as usize * mult` can overflow a 32-bit usize)
+    requires mult == 1,
+    ensures
+        //# C18.var_record
+        res matches Ok(rec) ==> (old(r)@.len() >= 4 + var_len(old(r)@, mult as int)
+            && rec@ == old(r)@.subrange(4, 4 + var_len(old(r)@, mult as int))
+            && final(r)@ == old(r)@.skip(4 + var_len(old(r)@, mult as int))),
+        //# C18.var_record_err_only_if_no_size
+        res is Err ==> old(r)@.len() < 4,
+//@@ before /let \(read, next\)/
+    proof {
+        assert(len == var_len(old(r)@, mult as int));
+        // the announced size is not compared with what is left: `split_at` panics ("mid > len") when it is larger
+        //# C06.var_record_size_beyond_end
+        assert(len <= r@.len());
+    }
+//@@ end
+
+proof fn witness_read_variable_record() ensures 1usize == 1 {}
+
+//@@ fn src/vba.rs check_record props=C06 entry ret=res
+//@@ sig
+    ensures
+        //# C18.check_record_ok
+        res is Ok ==> old(r)@.len() >= 2 && le16(old(r)@) == id && final(r)@ == old(r)@.skip(2),
+        //# C18.check_record_err
+        res is Err ==> old(r)@.len() < 2 || le16(old(r)@) != id,
+        //# C18.check_record_wrong_id_rejected
+        old(r)@.len() >= 2 && le16(old(r)@) != id ==> (res matches Err(VbaError::InvalidRecordId { expected, found }) && expected == id && found as int == le16(old(r)@)),
+//@@ end
+
+//@@ fn src/vba.rs check_variable_record props=C06 entry ret=res
+//@@ replace /log_enabled!\(Level::Warn\)/ opaque boolean, guards only a dropped warn! statement
+verif_log_enabled()
+//@@ sig
+    ensures
+        //# C18.check_var_record_ok
+        res matches Ok(rec) ==> (old(r)@.len() >= 6 && le16(old(r)@) == id
+            && old(r)@.len() >= 6 + le32(old(r)@.skip(2))
+            && rec@ == old(r)@.subrange(6, 6 + le32(old(r)@.skip(2)))
+            && final(r)@ == old(r)@.skip(6 + le32(old(r)@.skip(2)))),
+        //# C18.check_var_record_wrong_id_rejected
+        old(r)@.len() >= 2 && le16(old(r)@) != id ==> res is Err,
+//@@ end
+
+//@@ fn src/vba.rs read_dir_information props=C18 entry ret=res
+//@@ sig
+//@@ end
+
+//@@ fn src/vba.rs read_modules props=C18 entry ret=res
+//@@ sig
+//@@ loop 0 it
+        invariant true,
+//@@ loop 1
+            invariant true,
+            decreases stream@.len(),
 //@@ end
 
 } // verus!
